@@ -36,6 +36,7 @@ type Prog struct {
 	GOOS    string
 	Sizes   types.Sizes
 	gitStat string
+	Renamed []string // functions recognised under a new name (canon.go)
 }
 
 // Load type-checks the repository at dir.  extraEnv lets the thorough tier
@@ -91,6 +92,7 @@ func Load(dir string, extraEnv ...string) (*Prog, error) {
 			p.funcs = append(p.funcs, fn)
 		}
 	}
+	p.Renamed = p.resolveRenames()
 	sort.Slice(p.funcs, func(i, j int) bool { return p.FuncKey(p.funcs[i]) < p.FuncKey(p.funcs[j]) })
 	p.gitStat = gitStatus(dir)
 	return p, nil
@@ -144,6 +146,17 @@ func namedOf(t types.Type) *types.Named {
 
 // FuncKey is the position-independent name of a function: pkg.(*T).m / pkg.f / pkg.f$1
 func (p *Prog) FuncKey(fn *ssa.Function) string {
+	if fn == nil {
+		return "<nil>"
+	}
+	if k, ok := canonKey[fn]; ok {
+		return k
+	}
+	return p.rawFuncKey(fn)
+}
+
+// rawFuncKey: the key from the names as written in the source.
+func (p *Prog) rawFuncKey(fn *ssa.Function) string {
 	if fn == nil {
 		return "<nil>"
 	}
@@ -353,7 +366,6 @@ func extName(fn *ssa.Function) string {
 func (p *Prog) InModulePkg(pk *ssa.Package) bool {
 	return pk != nil && pk.Pkg != nil && strings.HasPrefix(pk.Pkg.Path(), modulePath)
 }
-
 
 var constMapCache = map[*ssa.Global]map[string]AV{}
 var constMapDone = map[*ssa.Global]bool{}
